@@ -223,6 +223,27 @@ pub fn run(rep: &Report) -> serde_json::Value {
                 }
             }
         }
+        // the same identifier twice in one container, in every ordered pair of wire forms: each occurrence is written back
+        // in its own form
+        for (la, fa, _) in &fs {
+            for (lb, fb, _) in &fs {
+                for (shape, wire) in [
+                    ("list [a, b]", [&[131u8, 108, 0, 0, 0, 2][..], fa, fb, &[106]].concat()),
+                    ("tuple {a, b, a}", [&[131u8, 104, 3][..], fa, fb, fa].concat()),
+                    ("list [1, a, b | a]", [&[131u8, 108, 0, 0, 0, 3, 97, 1][..], fa, fb, fa].concat()),
+                ] {
+                    if ref_decode(&wire).is_err() { continue; }
+                    rep.add("evaluations", 1);
+                    let owned = erltf::decode(&wire).ok().and_then(|t| erltf::encode(&t).ok());
+                    // (the zero-copy decoder does not read LOCAL_EXT at all - C13 is stated for the modern tag set; where it does
+                    // read the input, the identifiers come back in their own forms as well)
+                    let borrowed = match erltf::decode_borrowed(&wire) { Ok(t) => erltf::encode(&t.to_owned()).ok(), Err(_) => Some(wire.clone()) };
+                    if owned.as_deref() != Some(&wire[..]) || borrowed.as_deref() != Some(&wire[..]) {
+                        rep.violation("identifier not re-emitted byte-for-byte", json!({"id": v.short(), "context": shape, "form_a": la, "form_b": lb, "in": hex(&wire), "out_owned": owned.map(|b| hex(&b)), "out_zero_copy": borrowed.map(|b| hex(&b))}));
+                    }
+                }
+            }
+        }
         for (flabel, fbytes, is_local) in &fs {
             for (clabel, cbytes) in contexts(fbytes, matches!(v, RefVal::Pid { .. })) {
                 let mut wire = vec![131];
